@@ -30,6 +30,7 @@ var registry = map[string]propDef{
 	"C04t": {"other", props.C04tweak},
 	"C04o": {"other", props.C01offset},
 	"C05o": {"other", props.C01offset},
+	"C05q": {"other", props.C05outputs},
 	"C05d": {"other", props.C05dispatch},
 	"C05f": {"other", props.C05forms},
 	"C05w": {"other", props.C05wiring},
